@@ -85,6 +85,17 @@ void reader_side(sim::RunCtx& ctx) {
     }
     SIM_CHECK(leaf == t.cols.size(), "schema.leaf_count", "%zu leaves visited, %zu expected", leaf, t.cols.size());
     SIM_CHECK(carquet_schema_find_column(s, "no such column \x01") == -1, "schema.find_column", "find_column of an absent name did not return -1");
+    if (t.cols.empty()) {
+        // a table without columns through the batch reader: it may refuse, or report the end of the data - on every call
+        carquet_batch_reader_config_t bc; carquet_batch_reader_config_init(&bc); bc.num_threads = 1;
+        carquet_error_t berr = CARQUET_ERROR_INIT;
+        carquet_batch_reader_t* br = cq::batch_reader_create(o->r, &bc, &berr);
+        if (br) {
+            for (int q = 0; q < 3; q++) { carquet_row_batch_t* b = nullptr; carquet_status_t st = cq::batch_reader_next(br, &b); SIM_CHECK(st != CARQUET_OK || b == nullptr || carquet_row_batch_num_rows(b) == 0, "batch.rows_from_no_columns", "batch reader delivered rows from a table without columns"); if (b) cq::row_batch_free(b); }
+            cq::batch_reader_free(br);
+        }
+        SIM_COUNT("probe.zero_column_table_through_batch_reader");
+    }
     // the levels the column readers actually use: every chunk must decode to the model's levels and values
     for (size_t g = 0; g < t.rgs.size(); g++) for (size_t c = 0; c < t.cols.size(); c++) {
         exec::ReadChunk rc = exec::read_chunk_whole(o->r, (int)g, (int)c, t.cols[c].type, t.cols[c].tlen, t.cols[c].max_def, (int64_t)t.rgs[g].cols[c].entries());
